@@ -2,9 +2,9 @@
 package c11
 
 import (
-	"sort"
 	"encoding/json"
 	"fmt"
+	"sort"
 	"strconv"
 	"strings"
 	"testing"
@@ -436,6 +436,8 @@ func checkGeneric(root algoparser.Node, toks []ref.Tok, want *ref.Node) error {
 	return nil
 }
 
+var roundTripScanner = ref.NewScanner()
+
 func checkModel(m *ref.SpecModel, text string, toks []ref.Tok) error {
 	pm := newPosMap(toks)
 	// (a) typed tree
@@ -489,36 +491,49 @@ func checkModel(m *ref.SpecModel, text string, toks []ref.Tok) error {
 	if err != nil {
 		return fmt.Errorf("%v\nspecification:\n%s", err, text)
 	}
-	var g2, g3 *ast.Grammar
-	var err2, err3 error
-	if perr := rec.Guard(func() {
-		g2, err2 = ast.Parse("t.ebnf", strings.NewReader(printed))
-		if err2 == nil {
-			var p3 string
-			p3, err3 = printTyped(g2)
-			if err3 == nil {
-				g3, err3 = ast.Parse("t.ebnf", strings.NewReader(p3))
-			}
+	skipRoundTrip := false
+	if len(printed) > 4000 {
+		// a printed text beyond one buffer half may lie in the class of the listed dependency finding of C13 (a lexeme
+		// that ends at the last byte of a buffer half); the round trip compares positions, so the text cannot be shifted
+		for _, b := range roundTripScanner.Boundaries(printed + "\n") {
+			skipRoundTrip = skipRoundTrip || b%4096 == 4095
 		}
-	}); perr != nil {
-		return fmt.Errorf("%v\nprinted tree:\n%s", perr, printed)
+		if skipRoundTrip {
+			rec.Count("excluded_known_reload_alignment_of_the_printed_tree", 1)
+		}
 	}
-	if err2 != nil {
-		return fmt.Errorf("the printed typed tree does not parse: %v\nprinted tree:\n%s\nspecification:\n%s", err2, printed, text)
-	}
-	if err3 != nil {
-		return fmt.Errorf("the second print of the typed tree does not parse: %v", err3)
-	}
-	if !g2.Equal(g3) || !g3.Equal(g2) {
-		return fmt.Errorf("printing the typed tree and parsing it again does not give an Equal tree\nprinted tree:\n%s", printed)
-	}
-	toks2, _, _ := ref.NewScanner().Scan(printed)
-	got2, err := fromGrammar(g2, newPosMap(toks2))
-	if err != nil {
-		return fmt.Errorf("round trip: %v\nprinted tree:\n%s", err, printed)
-	}
-	if d := diffSpec(got, got2, false); d != "" {
-		return fmt.Errorf("round trip changes the tree: %s\nprinted tree:\n%s\nspecification:\n%s", d, printed, text)
+	if !skipRoundTrip {
+		var g2, g3 *ast.Grammar
+		var err2, err3 error
+		if perr := rec.Guard(func() {
+			g2, err2 = ast.Parse("t.ebnf", strings.NewReader(printed))
+			if err2 == nil {
+				var p3 string
+				p3, err3 = printTyped(g2)
+				if err3 == nil {
+					g3, err3 = ast.Parse("t.ebnf", strings.NewReader(p3))
+				}
+			}
+		}); perr != nil {
+			return fmt.Errorf("%v\nprinted tree:\n%s", perr, printed)
+		}
+		if err2 != nil {
+			return fmt.Errorf("the printed typed tree does not parse: %v\nprinted tree:\n%s\nspecification:\n%s", err2, printed, text)
+		}
+		if err3 != nil {
+			return fmt.Errorf("the second print of the typed tree does not parse: %v", err3)
+		}
+		if !g2.Equal(g3) || !g3.Equal(g2) {
+			return fmt.Errorf("printing the typed tree and parsing it again does not give an Equal tree\nprinted tree:\n%s", printed)
+		}
+		toks2, _, _ := ref.NewScanner().Scan(printed)
+		got2, err := fromGrammar(g2, newPosMap(toks2))
+		if err != nil {
+			return fmt.Errorf("round trip: %v\nprinted tree:\n%s", err, printed)
+		}
+		if d := diffSpec(got, got2, false); d != "" {
+			return fmt.Errorf("round trip changes the tree: %s\nprinted tree:\n%s\nspecification:\n%s", d, printed, text)
+		}
 	}
 	// Equal must see a difference in any single leaf: compare against the tree of the original text
 	var g1b *ast.Grammar
@@ -546,7 +561,10 @@ func checkModel(m *ref.SpecModel, text string, toks []ref.Tok) error {
 				}
 			}
 		}
-		const n = 4
+		n := 4
+		if len(toks) > 400 {
+			n = 1 // large specifications have hundreds of terminals: sentences of one terminal (and the empty one)
+		}
 		wantL := ref.ModelLanguages(rules, n)
 		var prods []ref.CFGProduction
 		for p := range sp.Grammar.Productions.All() {
@@ -572,6 +590,23 @@ func checkModel(m *ref.SpecModel, text string, toks []ref.Tok) error {
 			}
 			if !sp.Grammar.NonTerminals.Contains(grammar.NonTerminal(name)) {
 				return fmt.Errorf("rule %s of the typed tree is not a non-terminal of the derived grammar\nspecification:\n%s", name, text)
+			}
+		}
+		// deriving the grammar from the same text once more gives the same grammar, name for name (the typed tree's
+		// structure determines it, not what was derived before)
+		var sp2 *spec.Spec
+		_ = rec.Guard(func() { sp2, _ = spec.Parse("t.ebnf", strings.NewReader(text)) })
+		if sp2 != nil {
+			list := func(x *spec.Spec) string {
+				var ps []string
+				for p := range x.Grammar.Productions.All() {
+					ps = append(ps, p.String())
+				}
+				sort.Strings(ps)
+				return strings.Join(ps, "\n")
+			}
+			if a, b := list(sp), list(sp2); a != b {
+				return fmt.Errorf("the grammar derived from the same text a second time differs from the first\n--- first:\n%s\n--- second:\n%s\nspecification:\n%s", a, b, text)
 			}
 		}
 		// every token the tree declares is a terminal of the derived grammar, used or not
@@ -869,6 +904,26 @@ func moreEmpties(t *rapid.T, r *ref.RHS) {
 	}
 	if n := len(r.Subs); r.K == "alt" && n >= 2 && r.Subs[n-1].K == "empty" && rapid.IntRange(0, 3).Draw(t, "secondEmpty") == 0 {
 		r.Subs = append(r.Subs, &ref.RHS{K: "empty"})
+	}
+}
+
+// large specifications (gen.BigModels): more operands, rules and declarations than any block or table of a tree builder
+func TestLargeSpecifications(t *testing.T) {
+	rec.Begin(t)
+	rec.Rule(rule)
+	if rec.Shard() != 0 {
+		t.Skip("seed independent: shard 0 only")
+	}
+	for _, m := range gen.BigModels() {
+		text, placed := gen.BigText(m)
+		rec.Case(text, true, "large_specification")
+		if err := checkModel(m, text, placed); err != nil {
+			msg := err.Error()
+			if len(msg) > 3000 {
+				msg = msg[:3000] + " ..."
+			}
+			rec.Fail(t, "model", input{Model: m, Text: text}, "large specification %s: %s", m.Name, msg)
+		}
 	}
 }
 
